@@ -194,14 +194,21 @@ class _Chan:
 
 def _mk_reader(ntop, nsub, log):
     r = H.DigitalRFReader.__new__(H.DigitalRFReader)
-    props = {'num_subchannels': nsub, 'subdir_cadence_secs': 3600, 'file_cadence_millisecs': 1000, 'samples_per_second': 'SPS'}
+    props = {'num_subchannels': nsub, 'subdir_cadence_secs': 3600, 'file_cadence_millisecs': 1000, 'samples_per_second': 'SPS',
+             'sample_rate_numerator': 'NUM', 'sample_rate_denominator': 'DEN'}
     r._channel_dict = {'ch': _Chan([_Top(log) for _ in range(ntop)], props)}
     flog = []
-    def gfl(s0, s1, sps, sc, fc):
-        flog.append((s0, s1, sps, sc, fc)); return ['FILES']
+    def gfl(*a):
+        flog.append(tuple(a)); return ['FILES']
     r._get_file_list = gfl
     r._combine_blocks = lambda d, len_only=False: ('combined', d, len_only)
     return r, flog
+
+
+import inspect as _inspect
+_FL_PARAMS = list(_inspect.signature(H.DigitalRFReader._get_file_list).parameters)[2:]
+_FL_ARGS = tuple({'samples_per_second': 'SPS', 'sample_rate_numerator': 'NUM', 'sample_rate_denominator': 'DEN'}.get(p, 3600 if 'subdir' in p else 1000)
+                 for p in _FL_PARAMS)     # what the real signature expects, from the channel properties
 
 
 def _read_glue(s0: int, s1: int, sub: Optional[int], nsub: int, ntop: int) -> bool:
@@ -214,7 +221,7 @@ def _read_glue(s0: int, s1: int, sub: Optional[int], nsub: int, ntop: int) -> bo
     r, flog = _mk_reader(ntop, nsub, log)
     out = r.read(s0, s1, 'ch', sub)
     d = out[1]
-    return (out[0] == 'combined' and out[2] is False and isinstance(d, dict) and len(d) == 0 and flog == [(s0, s1, 'SPS', 3600, 1000)]
+    return (out[0] == 'combined' and out[2] is False and isinstance(d, dict) and len(d) == 0 and flog == [(s0, s1) + _FL_ARGS]
             and len(log) == ntop and all(e == (s0, s1, ['FILES'], d, False, sub) and e[3] is d for e in log))
 
 
@@ -244,7 +251,7 @@ def _blocks_glue(s0: int, s1: int, ntop: int) -> bool:
     r, flog = _mk_reader(ntop, 1, log)
     out = r.get_continuous_blocks(s0, s1, 'ch')
     d = out[1]
-    return (out[0] == 'combined' and out[2] is True and isinstance(d, dict) and len(d) == 0 and flog == [(s0, s1, 'SPS', 3600, 1000)]
+    return (out[0] == 'combined' and out[2] is True and isinstance(d, dict) and len(d) == 0 and flog == [(s0, s1) + _FL_ARGS]
             and len(log) == ntop and all(e == (s0, s1, ['FILES'], d, True, None) and e[3] is d for e in log))
 
 
